@@ -13,14 +13,18 @@ from .. import gen
 
 TRANSLATOR = os.path.join(ROOT, 'harness', 'translate', 'py2gallina_c06.py')
 GEN_FILE = 'DimWiseGen.v'
-GEN_CHAIN = ['Base/PyC06.v', 'Gen/DimWiseGen.v', 'Proofs/GenDimWiseEq.v', 'Props/C06gen.v']
+GEN_CHAIN = ['Base/PyC06.v', 'Gen/DimWiseGen.v', 'Proofs/GenDimWiseEq.v', 'Proofs/GenDimWiseSubEq.v', 'Gen/RefContainerGen.v',
+             'Proofs/GenRefContEq.v', 'Props/C06gen.v']
 EXTRA_PROPS = ('C06gen',)
 ASSUMPTION = gen.ASSUMPTION + ('; C06/C03 front end: unannotated parameters of modify_according_to_levelvec / update_coarsening_values '
                                'declared int / List[int]; OBJECT VIEWS: a RefinementObjectSingleDimension is read as its levels '
                                'tuple, a RefinementContainer as the list of these in container order (get_objects() checked to be '
                                '`return self.refinementObjects`), the assignment of coarsening_level to the loop element becomes part '
                                'of the result; `if p: break` in a while loop becomes a loop flag; max_level_dict keyed by (d, i) is an '
-                               'association list (coq/Base/PyC06.v)')
+                               'association list (coq/Base/PyC06.v), a store into it becomes part of the result; get_subtraction_value: the branches of versions 3, 4, 5 '
+                               'are declared outside the model (the generated function raises there), sum([1 for v in range(E) if C]) becomes a counting loop; second target RefinementContainer.get_next_object_for_refinement: '
+                               'objects viewed as their benefits, the write of searchPosition becomes part of the result, the returned object is dropped, '
+                               'the None index of the not-found result is written -1')
 
 
 def regenerate(chk):
